@@ -11,6 +11,7 @@ import (
 
 	"verif/sim/chip"
 	"verif/sim/core"
+	"verif/sim/term"
 	"verif/sim/world"
 )
 
@@ -28,7 +29,7 @@ type HostileFileCase struct {
 }
 
 var hostileFileMuts = []string{"bitflip", "byteset", "truncate", "len-larger", "len-smaller", "len-4gib", "len-indefinite", "deep-nesting", "deep-nesting-definite", "many-nodes", "tag-zero", "long-tag",
-	"inner-len-lie", "duplicate-inner", "empty-inner", "random-tail", "giant-claimed-image", "zero-fill", "repeat-entries", "unwrap-and-repeat", "inner-bad-oid"}
+	"inner-len-lie", "duplicate-inner", "empty-inner", "random-tail", "giant-claimed-image", "zero-fill", "repeat-entries", "unwrap-and-repeat", "inner-bad-oid", "facial-fields", "name-extra-component"}
 
 var hostileFileTargets = []string{"cardaccess", "sod", "com", "dg1", "dg2", "dg7", "dg11", "dg12", "dg13", "dg14", "dg15", "dg16", "cardsecurity"}
 
@@ -55,7 +56,18 @@ func (HostileFilesEngine) Gen(prop, tier string, seed uint64, yield func(c any) 
 		if i%3 == 0 {
 			s.DS, s.DSScheme = world.KeySpec{Kind: "ec", CurveID: core.Pick(rng, chip.AllParamIDs), Explicit: true}, world.SchemeSpec{Kind: "ecdsa", Hash: "SHA256"}
 		}
-		f := hostileFileTargets[i%len(hostileFileTargets)]
+		// every mutation family gets the same share of runs, spread over the files it applies to
+		mut := hostileFileMuts[i%len(hostileFileMuts)]
+		targets := hostileFileTargets
+		switch mut {
+		case "facial-fields", "giant-claimed-image":
+			targets = []string{"dg2"}
+		case "name-extra-component":
+			targets = []string{"dg11", "dg12", "dg16"}
+		case "repeat-entries", "unwrap-and-repeat":
+			targets = []string{"dg11", "dg12", "dg16", "com", "dg2", "dg7", "cardaccess", "dg14"}
+		}
+		f := targets[(i/len(hostileFileMuts))%len(targets)]
 		if f == "cardsecurity" {
 			s.PACE = []world.PaceSpec{{Suite: chip.AES128, CAM: true, ParamID: 13}}
 			s.AA, s.CA = nil, nil
@@ -69,7 +81,7 @@ func (HostileFilesEngine) Gen(prop, tier string, seed uint64, yield func(c any) 
 		if f == "dg15" && s.AA == nil {
 			s.AA = &world.AASpec{Kind: "ec", CurveID: 12}
 		}
-		if !yield(HostileFileCase{Spec: s, File: f, Mut: hostileFileMuts[(i/len(hostileFileTargets))%len(hostileFileMuts)], A: rng.Intn(1 << 20), B: rng.Intn(256)}) {
+		if !yield(HostileFileCase{Spec: s, File: f, Mut: mut, A: rng.Intn(1 << 20), B: rng.Intn(256)}) {
 			return
 		}
 	}
@@ -225,6 +237,63 @@ func mutateFile(orig []byte, mut string, a, b int, rng *core.Rng) []byte {
 			g = append(bytes.Clone(bad), g...)
 		}
 		return chip.EncTLV(outerTag, g)
+	case "facial-fields":
+		// length and count fields of an ISO/IEC 19794-5 facial record set to small / inconsistent values (in place)
+		i := bytes.Index(f, []byte{'F', 'A', 'C', 0})
+		if i < 0 || i+34 > len(f) {
+			return f
+		}
+		put32 := func(off int, v uint32) { f[off], f[off+1], f[off+2], f[off+3] = byte(v>>24), byte(v>>16), byte(v>>8), byte(v) }
+		switch a % 4 {
+		case 0:
+			put32(i+14, uint32(b%96))
+		case 1:
+			f[i+18], f[i+19] = 0, byte(1+b%8)
+			put32(i+14, uint32(32+b%70))
+		case 2:
+			put32(i+8, uint32(b%64))
+		case 3:
+			f[i+12], f[i+13] = byte(b%2), byte(200*(b%2))
+		}
+		return f
+	case "name-extra-component":
+		// a name field with one component too many ("A<<B<<C"), in an object of the root or of its first template
+		var rebuild func(raw []byte, depth int) ([]byte, bool)
+		rebuild = func(raw []byte, depth int) ([]byte, bool) {
+			kids, err := chip.ParseTLVs(raw)
+			if err != nil {
+				return raw, false
+			}
+			var g []byte
+			done := false
+			for _, k := range kids {
+				first := k.Tag
+				for first > 0xFF {
+					first >>= 8
+				}
+				switch {
+				case done:
+					g = append(g, k.Raw...)
+				case first&0x20 != 0 && depth < 2:
+					if sub, ok := rebuild(k.Val, depth+1); ok {
+						g = append(g, chip.EncTLV(k.Tag, sub)...)
+						done = true
+					} else {
+						g = append(g, k.Raw...)
+					}
+				case bytes.Contains(k.Val, []byte("<<")) && k.Tag != 0x5F1F:
+					g = append(g, chip.EncTLV(k.Tag, append(bytes.Clone(k.Val), []byte("<<ZED")...))...)
+					done = true
+				default:
+					g = append(g, k.Raw...)
+				}
+			}
+			return g, done
+		}
+		if g, ok := rebuild(inner, 0); ok {
+			return chip.EncTLV(outerTag, g)
+		}
+		return f
 	case "many-nodes":
 		return chip.EncTLV(outerTag, bytes.Repeat([]byte{0x04, 0x00}, 9000+a%6000))
 	case "tag-zero":
@@ -358,9 +427,13 @@ func (HostileFilesEngine) Run(prop string, ci any) *core.Outcome {
 	{
 		var a0, a1 runtime.MemStats
 		runtime.ReadMemStats(&a0)
+		term.ArmStepBound(5000000)
 		_, pan := directConstructor(c.File, served)
+		term.DisarmStepBound()
 		runtime.ReadMemStats(&a1)
-		if pan != nil {
+		if pan == term.StepBoundExceeded {
+			out.Violate("C12", "no-termination", "constructor/"+sig, "constructor for %s does not return within 5 000 000 logging steps on a %d-byte input (%s)", c.File, len(served), c.Mut)
+		} else if pan != nil {
 			out.Violate("C12", "panic-in-constructor", sig, "constructor for %s panics on the %d bytes the chip served (%s): %v", c.File, len(served), c.Mut, pan)
 		}
 		d := a1.TotalAlloc - a0.TotalAlloc
